@@ -65,18 +65,29 @@ pub fn string_to_tokens(file_id: usize, content: &str) -> Vec<PlacedToken> {
         .spanned()
         // Contains side-effects.
         .map(|(token, byte_range)| {
-            let is_newline = token == Token::Newline;
+            let line_start = line;
             let col_start = char_at_byte[byte_range.start].unwrap() - last_newline;
+            // A token can contain newlines (a string literal may span lines). Every
+            // newline before the token's last char moves the end of the span to a
+            // later line, a trailing newline only affects the tokens that follow.
+            let text = &content[byte_range.clone()];
+            let last_char = text.char_indices().last().map(|(i, _)| i);
+            for (i, c) in text.char_indices() {
+                if c == '\n' && Some(i) != last_char {
+                    last_newline = char_at_byte[byte_range.start + i].unwrap();
+                    line += 1;
+                }
+            }
             let col_end = char_at_byte[byte_range.end].unwrap() - last_newline;
             let span = Span {
                 file_id,
                 col_start,
                 col_end,
-                line_start: line,
+                line_start,
                 line_end: line,
             };
-            if is_newline {
-                last_newline = char_at_byte[byte_range.start].unwrap();
+            if text.ends_with('\n') {
+                last_newline = char_at_byte[byte_range.end - 1].unwrap();
                 line += 1;
             }
             PlacedToken { token, span }
